@@ -139,5 +139,14 @@ CHECKS["C18"] = dict(
          "(contains with default case-insensitivity / regex class, and not the not-contains text) holds on it and no earlier callback's does, and that a once-callback does not run twice; for the outcome: "
          "complete returns the whole dialogue up to that boundary, an operation error only after a once-callback's trigger won again, a time-out only when no trigger holds on what was accumulated.",
     note="Trusted: TLC; the recorded delivered stream (device mutex order). 300 (quick) / 2500 (thorough) operations. One genuine defect repaired (not-contains inverted).")
+CHECKS["C15"] = dict(
+    category="model_checking", design_ref="DESIGN.md §5 C15, §11",
+    technique="TLA+/TLC: Telnet.tla runs the per-byte negotiation machine on every server opening up to a bound (and a sample of longer ones) with AnsweredOnce / DataKept / BackToData as invariants; "
+              "each opening with its predicted replies and data is sent by a loopback TCP server to the real telnet transport under several TCP segmentations and read sizes",
+    text="Openings are sequences of negotiations (4 verbs x {SGA, ECHO, other}), two-byte commands, escaped IAC, single data bytes and a run of text. TLC enumerates all of <= 2 (quick) / 3 (thorough) items "
+         "plus 250 / 1500 longer ones and predicts the reply bytes and the plain data. The harness compares the bytes the server received with the predicted replies (exactly once each, right verb) and the "
+         "bytes the first reads return with the plain data (bytes of two-byte commands and an escaped 0xFF may appear or not), for whole / byte-wise / cut-after-IAC / halved / paused segmentations and read "
+         "sizes 8192, 2, 1.",
+    note="Trusted: TLC, loopback TCP. Socket timeout 240 ms; mismatches must reproduce when re-executed alone. One genuine defect repaired (data dropped after IAC NOP / IAC IAC).")
 PENDING_REASON = "check not built yet in this session (work in progress; see DESIGN.md §5 for the planned TLA+ specification and binding)"
 NOT_APPLICABLE = {}
